@@ -461,6 +461,39 @@ Definition names_ok (ks : list (cfg * str)) : bool :=
 Definition hist_ok (h : list (cfg * list query)) : bool :=
   forallb (fun run => forallb (fun q => 0 <=? query_pos q) (snd run)) h && names_ok (keys_of h).
 
+(* ------------------------------------------------------------------ several resolver objects in one process *)
+(* objects are numbered; an object is constructed when it is first used; every object owns its table
+   (self.locationToAllele is per instance), all objects on this VCF share the cache directory *)
+Definition cfg0 : cfg :=
+  {| c_phased := true; c_select := None; c_ignore := None; c_lazy := false; c_cache := false; c_chrom := None |}.
+Definition obj_cfg (objs : list cfg) (i : nat) : cfg := nth i objs cfg0.
+Definition objs_state := list (nat * option table).     (* None: the constructor raised *)
+Definition session_step (v : vcf) (objs : list cfg) (st : objs_state * fsys) (op : nat * query)
+  : (objs_state * fsys) * answer :=
+  let cf := obj_cfg objs (fst op) in
+  let ot := match aget Nat.eqb (fst st) (fst op) with Some x => x | None => init_table v cf end in
+  match ot with
+  | Some t => let r := step v cf (t, snd st) (snd op) in
+              ((aset Nat.eqb (fst st) (fst op) (Some (fst (fst r))), snd (fst r)), snd r)
+  | None => ((aset Nat.eqb (fst st) (fst op) None, snd st), ARaise)
+  end.
+Fixpoint run_session (v : vcf) (objs : list cfg) (st : objs_state * fsys) (ops : list (nat * query))
+  : fsys * list answer :=
+  match ops with
+  | [] => (snd st, [])
+  | op :: ops' => let r := session_step v objs st op in
+                  let '(fs', ans) := run_session v objs (fst r) ops' in (fs', snd r :: ans)
+  end.
+Definition ctor_ok (v : vcf) (cf : cfg) : bool :=
+  if is_lazy cf then true else match c_chrom cf with None => true | Some c => valid_contig v c end.
+(* what an operation on object i must answer: a function of THAT object's settings and the VCF only *)
+Definition spec_op (v : vcf) (objs : list cfg) (op : nat * query) : answer :=
+  if ctor_ok v (obj_cfg objs (fst op)) then spec_answer v (obj_cfg objs (fst op)) (snd op) else ARaise.
+Definition sess_keys (objs : list cfg) (ops : list (nat * query)) : list (cfg * str) :=
+  map (fun op => (obj_cfg objs (fst op), query_contig (snd op))) ops.
+Definition sess_ok (objs : list cfg) (ops : list (nat * query)) : bool :=
+  forallb (fun op => 0 <=? query_pos (snd op)) ops && names_ok (sess_keys objs ops).
+
 (* ------------------------------------------------------------------ I/O glue *)
 Definition dec_str (v : Val) : str := getZs v.
 Definition dec_opt {A} (f : Val -> A) (v : Val) : option A :=
@@ -481,6 +514,7 @@ Definition dec_cfg (v : Val) : cfg :=
 Definition dec_query (v : Val) : query :=
   if getZ (nthV 0 v) =? 0 then QGet (dec_str (nthV 1 v)) (getZ (nthV 2 v)) (dec_str (nthV 3 v))
   else QHas (dec_str (nthV 1 v)) (getZ (nthV 2 v)).
+Definition dec_op (v : Val) : nat * query := (Z.to_nat (getZ (nthV 0 v)), dec_query (nthV 1 v)).
 Definition dec_hist (v : Val) : list (cfg * list query) :=
   map (fun r => (dec_cfg (nthV 0 r), map dec_query (getL (nthV 1 r)))) (getL v).
 Definition enc_str (s : str) : Val := ofZs s.
@@ -524,7 +558,9 @@ Fixpoint list_eqb {A} (e : A -> A -> bool) (a b : list A) : bool :=
    mode 2: [[vcf; history]; answers] -> do the given answers satisfy the specification?
    mode 3: [vcf; history] -> the answers the specification demands
    mode 4: [content] -> what read_cached makes of a cache file for contig "c" (lines as (pos, base, samples))
-   mode 5: [cfg; contig] -> cache file name (and whether the contig is cached at all) *)
+   mode 5: [cfg; contig] -> cache file name (and whether the contig is cached at all)
+   mode 6: [vcf; objects (cfgs); ops ([object; query])] -> [answers; cache files]   (several objects, interleaved)
+   mode 7: precondition of C18_objects_independent;  mode 8: the answers the specification demands for mode 6 *)
 Definition run_C18 (mode : Z) (x : Val) : Val :=
   match mode with
   | 0 => let v := dec_vcf (nthV 0 x) in
@@ -541,5 +577,11 @@ Definition run_C18 (mode : Z) (x : Val) : Val :=
                       (getd seqb t [99]))
   | 5 => let cf := dec_cfg (nthV 0 x) in let c := dec_str (nthV 1 x) in
          VL [enc_str (cache_name cf c); ofB (cacheable c)]
+  | 6 => let v := dec_vcf (nthV 0 x) in
+         let '(fs, ans) := run_session v (map dec_cfg (getL (nthV 1 x))) ([], []) (map dec_op (getL (nthV 2 x))) in
+         VL [VL (map enc_answer ans); VL (map (fun nc => VL [enc_str (fst nc); enc_str (snd nc)]) fs)]
+  | 7 => ofB (vcf_ok (dec_vcf (nthV 0 x)) && sess_ok (map dec_cfg (getL (nthV 1 x))) (map dec_op (getL (nthV 2 x))))
+  | 8 => let objs := map dec_cfg (getL (nthV 1 x)) in
+         VL (map (fun op => enc_answer (spec_op (dec_vcf (nthV 0 x)) objs op)) (map dec_op (getL (nthV 2 x))))
   | _ => bad
   end.
